@@ -233,4 +233,57 @@ def equiv (j : Json) : Except String Json := do
       ("src_at", match ts[cp]? with | some e => jEff e | none => Json.null),
       ("ic_at", match ti[cp]? with | some e => jEff e | none => Json.null)])
 
+def opndEq : Opnd PReg Float → Opnd PReg Float → Bool
+  | .reg a, .reg b => a == b
+  | .num a, .num b => a == b || (a.isNaN && b.isNaN)
+  | _, _ => false
+
+def instrEq (a b : Instr PReg Float) : Bool :=
+  a.kind == b.kind && a.dst == b.dst && a.args.length == b.args.length && (a.args.zip b.args).all (fun (x, y) => opndEq x y)
+
+/-- token-wise comparison of two lines the loader model cannot parse: same opcode, same number of operands,
+    each operand pair textually equal or denoting the same number (operand kinds from the signature table) -/
+def tokensSame (ta tb : List String) : Bool :=
+  match ta, tb with
+  | [], [] => true
+  | opa :: ra, opb :: rb =>
+    opa == opb && ra.length == rb.length &&
+    (let kinds : List (Option Spec.OpKind) := match Spec.lookup opa with
+        | some sg => (if sg.out then [none] else []) ++ sg.ins.map some
+        | none => []
+     (ra.zip rb).zipIdx.all (fun ((x, y), i) =>
+       x == y ||
+       (let pos := match kinds[i]? with | some (some k) => kindEnum k | _ => none
+        match PV.Tokens.denote PV.Gen.enums pos x.toList, PV.Tokens.denote PV.Gen.enums pos y.toList with
+        | some a, some b => a == b
+        | _, _ => false)))
+  | _, _ => false
+
+/-- do two texts denote the same instruction sequence (C08 oracle)?  Lines are compared as parsed instructions;
+    a line pair the loader model rejects is compared token by token (whether it is loadable is C09's question). -/
+def sameProgram (j : Json) : Except String Json := do
+  let a ← j.getObjValAs? String "a"
+  let b ← j.getObjValAs? String "b"
+  let la := (splitLines a).map tokenize
+  let lb := (splitLines b).map tokenize
+  if la.length != lb.length then
+    pure (Json.mkObj [("verdict", Json.str "length"), ("a", Json.num (JsonNumber.fromNat la.length)), ("b", Json.num (JsonNumber.fromNat lb.length))])
+  else
+    let ca := buildCtx la
+    let cb := buildCtx lb
+    let lineSame (ta tb : List String) : Bool :=
+      match labelOf ta, labelOf tb with
+      | some x, some y => x == y
+      | none, none =>
+        (match instrOfLine ca ta, instrOfLine cb tb with
+         | .ok ia, .ok ib => instrEq ia ib
+         | _, _ => tokensSame ta tb)
+      | _, _ => false
+    match ((la.zip lb).zipIdx.find? (fun ((x, y), _) => !lineSame x y)) with
+    | some (_, i) => pure (Json.mkObj [("verdict", Json.str "differ"), ("line", Json.num (JsonNumber.fromNat i))])
+    | none =>
+      let unparsed := (la.filter (fun t => (labelOf t).isNone && (match instrOfLine ca t with | .ok _ => false | .error _ => true))).length
+      pure (Json.mkObj [("verdict", Json.str "same"), ("lines", Json.num (JsonNumber.fromNat la.length)),
+                        ("unparsed", Json.num (JsonNumber.fromNat unparsed))])
+
 end PV.DriverRun
